@@ -41,6 +41,15 @@ def check_apply(prog, rep, m):
     out = rets[0] if rets else None
     cell = [s for s in k.stores if s.arr is out and s.idx != 'all']
     if len(cell) != 1:
+        red = [s for s in cell if isinstance(s.value, Rat) and any(isinstance(a, App) and a.name == 'call:%s' % func for a in s.value.atoms())]
+        if len(red) == 1 and len(cell) > 1 and all(tuple(s.idx) == tuple(red[0].idx) for s in cell) and red[0].guards:
+            # the reducer's value is kept on some paths only, another value is stored on the others
+            oth = [s for s in cell if s is not red[0]]
+            rep.add('F1', f, entry, norm(oth[0].node), oth[0].node.lineno, False,
+                    'every cell gets the caller\'s reducer applied to its window, unconditionally (what an empty or all-NaN window '
+                    'gives is the reducer\'s business: nansum gives 0, a count gives 0): here %s is stored instead under %s'
+                    % (show(oth[0].value, 40), [cond_repr(g)[:60] for g in oth[0].guards][:2]))
+            return
         rep.add('F1', f, entry, 'per-cell result store', f.node.lineno, None, 'expected exactly one store into the result')
         return
     cs = cell[0]
